@@ -40,7 +40,8 @@ NoCtx == [active |-> FALSE, sid |-> 0, key |-> "", parent |-> AbsentObj, sel |->
           needFreshGet |-> FALSE, wrote |-> FALSE, childReqs |-> 0, atFix |-> FALSE, fresh |-> FALSE,
           prevQuiet |-> FALSE, hookOK |-> FALSE, nonBenign |-> FALSE, hook429 |-> FALSE, childFault |-> FALSE,
           statusConflict |-> FALSE, parentGone |-> FALSE, claimFail |-> FALSE, revWrites |-> 0,
-          hookReq |-> [children |-> <<>>], result |-> "", parentChanged |-> FALSE, parentReqsAfterHook |-> 0]
+          hookReq |-> [children |-> <<>>], result |-> "", parentChanged |-> FALSE, parentReqsAfterHook |-> 0,
+          store0 |-> <<>>, hookSeq |-> <<>>]
 
 E      == Trace[l]
 HasE   == l <= N
@@ -547,6 +548,122 @@ C17_HookSeesDelivered ==
               \/ Report("C17", "C17_HookSeesDelivered", <<"parent in request differs from the cached/updated parent", E.req.parent.rv, Cur(C).rv>>)
 
 \* =======================================================================================
+\* C07 / C08 / C09 -- rolling updates (scenarios of spec/Rolling.tla: expect.patchOf maps the value of
+\* the revisioned parent field to the parentPatch of its ControllerRevision, expect.revOrder orders them)
+\* =======================================================================================
+RollScn == "patchOf" \in DOMAIN expect
+RevKeys(st, puid) == { k \in DOMAIN st : st[k].live /\ st[k].kind = "ControllerRevision" /\ st[k].ctrl = puid }
+RevValOf(o) == IF \E v \in DOMAIN expect.patchOf : expect.patchOf[v] = o.patch
+               THEN CHOOSE v \in DOMAIN expect.patchOf : expect.patchOf[v] = o.patch ELSE "?"
+Claims(o, kind) == UNION { Range(o.claims[i].names) : i \in { j \in DOMAIN o.claims : o.claims[j].k = kind } }
+ClaimVals(st, puid, kind, name) == { RevValOf(st[k]) : k \in { x \in RevKeys(st, puid) : name \in Claims(st[x], kind) } }
+RevField == "spec.rev"
+LatestVal(c) == c.parent.fields[RevField]
+\* the latest revision's hook answer of this sync (the call whose parent carries the live revisioned value)
+LatestIdx(c) == { i \in DOMAIN c.hookSeq : c.hookSeq[i].code = 200 /\ RevField \in DOMAIN c.hookSeq[i].parent.fields
+                                            /\ c.hookSeq[i].parent.fields[RevField] = LatestVal(c) }
+HasLatest(c) == RollScn /\ c.parent.live /\ RevField \in DOMAIN c.parent.fields /\ LatestIdx(c) # {}
+             /\ \A i \in DOMAIN c.hookSeq : c.hookSeq[i].code = 200
+LatestResp(c) == c.hookSeq[CHOOSE i \in LatestIdx(c) : TRUE].resp
+DesNames(c) == { LatestResp(c).children[i].name : i \in DOMAIN LatestResp(c).children }
+DesOf(c, n) == LatestResp(c).children[CHOOSE i \in DOMAIN LatestResp(c).children : LatestResp(c).children[i].name = n]
+PosOf(c, n) == CHOOSE i \in DOMAIN LatestResp(c).children : LatestResp(c).children[i].name = n
+KidKey(c, n) == <<"Thing", c.parent.ns, n>>
+ObsKid(c, n) == Lookup(c.obs, KidKey(c, n))
+UpToDateK(c, n) == ObsKid(c, n).live /\ SubFn(DesOf(c, n).fields, ObsKid(c, n).fields) /\ SubFn(DesOf(c, n).labels, ObsKid(c, n).labels)
+ChecksOn == \E i \in DOMAIN cfg.children : "checks" \in DOMAIN cfg.children[i] /\ cfg.children[i].checks # <<>>
+HappyK(c, n) == LET o == ObsKid(c, n) IN
+  /\ ChecksOn => ("conditions.0.type" \in DOMAIN o.status /\ o.status["conditions.0.type"] = "s:Ready"
+                  /\ "conditions.0.status" \in DOMAIN o.status /\ o.status["conditions.0.status"] = "s:True")
+  /\ (MethodOf("Thing") = "RollingInPlace" /\ "observedGeneration" \in DOMAIN o.status) => o.status["observedGeneration"] = ToString(o.gen)
+OnLatestBefore(c, n) == LatestVal(c) \in ClaimVals(c.store0, c.parent.uid, "Thing", n)
+OnLatestAfter(c, n)  == LatestVal(c) \in ClaimVals(store, c.parent.uid, "Thing", n)
+\* children that this sync moved from an older revision to the latest although they need a real change
+MovedNeeding(c) == { n \in DesNames(c) : ~OnLatestBefore(c, n) /\ ClaimVals(c.store0, c.parent.uid, "Thing", n) # {}
+                                          /\ OnLatestAfter(c, n) /\ ~UpToDateK(c, n) }
+Needing(c) == { n \in DesNames(c) : ~OnLatestBefore(c, n) /\ ClaimVals(c.store0, c.parent.uid, "Thing", n) # {} /\ ~UpToDateK(c, n) }
+RollEnd == IsEv("SyncEnd") /\ E.a \in DOMAIN ctx /\ ctx[E.a].active /\ HasLatest(ctx[E.a]) /\ E.result = "ok" /\ ctx[E.a].failedReqs = <<>> /\ ctx[E.a].fresh
+C07_OneMove ==
+  RollEnd => (Cardinality(MovedNeeding(ctx[E.a])) <= 1 \/ Report("C07", "C07_OneMove", <<"moved", MovedNeeding(ctx[E.a])>>))
+C07_HookOrder ==
+  (RollEnd /\ MovedNeeding(ctx[E.a]) # {})
+  => LET c == ctx[E.a]  first == CHOOSE n \in Needing(c) : \A m \in Needing(c) : PosOf(c, n) <= PosOf(c, m) IN
+     (MovedNeeding(c) = {first} \/ Report("C07", "C07_HookOrder", <<"moved", MovedNeeding(c), "first in hook order", first>>))
+C07_Gate ==
+  (RollEnd /\ MovedNeeding(ctx[E.a]) # {})
+  => LET c == ctx[E.a] IN
+     \A n \in DesNames(c) : OnLatestBefore(c, n)
+        => ((ObsKid(c, n).live /\ UpToDateK(c, n) /\ HappyK(c, n))
+            \/ Report("C07", "C07_Gate", <<"moved", MovedNeeding(c), "although", n, "live", ObsKid(c, n).live, "upToDate", UpToDateK(c, n), "happy", HappyK(c, n)>>))
+\* a child is (re)written with the desired state of the revision that claims it; non-revisioned fields
+\* come from the live parent for every child
+RollWrite == ReqE /\ RollScn /\ IsChildReq(E) /\ E.verb \in {"create", "update"} /\ Accepted(E) /\ HasLatest(C) /\ E.body.live
+             /\ ~IsAdoption(E, C) /\ ~IsRelease(E, C)
+C07_OldStay ==
+  RollWrite => LET vs == ClaimVals(store, PUid, E.kind, E.name) IN
+               \/ vs = {} \/ RevField \notin DOMAIN E.body.fields \/ E.body.fields[RevField] \in vs
+               \/ Report("C07", "C07_OldStay", <<Key(E), "written at", E.body.fields[RevField], "claimed by", vs>>)
+C07_NonRevNow ==
+  RollWrite => \/ "spec.nonrev" \notin DOMAIN E.body.fields \/ "spec.nonrev" \notin DOMAIN C.parent.fields
+               \/ E.body.fields["spec.nonrev"] = C.parent.fields["spec.nonrev"]
+               \/ Report("C07", "C07_NonRevNow", <<Key(E), E.body.fields["spec.nonrev"], C.parent.fields["spec.nonrev"]>>)
+\* the Updated condition of the parent
+UpdIdx(st) == { n \in 0..3 : ("conditions." \o ToString(n) \o ".type") \in DOMAIN st /\ st["conditions." \o ToString(n) \o ".type"] = "s:Updated" }
+UpdField(st, f) == LET n == CHOOSE x \in UpdIdx(st) : TRUE  p == "conditions." \o ToString(n) \o "." \o f IN IF p \in DOMAIN st THEN st[p] ELSE ""
+C07_Cond ==
+  (RollEnd /\ ~ctx[E.a].statusConflict /\ ~ctx[E.a].parentGone)
+  => LET c == ctx[E.a]  st == Lookup(store, ParentKeyOf(c)).status
+         allLatest == \A n \in DesNames(c) : OnLatestAfter(c, n) IN
+     \/ Lookup(store, ParentKeyOf(c)).uid # c.parent.uid
+     \/ (/\ Cardinality(UpdIdx(st)) = 1
+         /\ (allLatest => (UpdField(st, "status") = "s:True" /\ UpdField(st, "reason") = "s:OnLatestRevision"))
+         /\ (~allLatest => (UpdField(st, "status") = "s:False" /\ UpdField(st, "reason") \in {"s:RolloutWaiting", "s:RolloutProgressing"}))
+         /\ ((~allLatest /\ MovedNeeding(c) # {}) => UpdField(st, "reason") = "s:RolloutProgressing"))
+     \/ Report("C07", "C07_Cond", <<"allOnLatest", allLatest, "moved", MovedNeeding(c), "conditions", [p \in { q \in DOMAIN st : \E n \in 0..3 : \E f \in {"type", "status", "reason"} : q = "conditions." \o ToString(n) \o "." \o f } |-> st[p]]>>)
+\* C08: a rollout never waits on a child that exists, is up to date and passes its checks
+C08_NoNeedlessWait ==
+  (RollEnd /\ Cardinality(UpdIdx(Lookup(store, ParentKeyOf(ctx[E.a])).status)) = 1
+     /\ UpdField(Lookup(store, ParentKeyOf(ctx[E.a])).status, "reason") = "s:RolloutWaiting" /\ ~ctx[E.a].statusConflict)
+  => LET c == ctx[E.a] IN
+     \/ \E n \in DesNames(c) : OnLatestAfter(c, n) /\ ~(ObsKid(c, n).live /\ UpToDateK(c, n) /\ HappyK(c, n))
+     \/ Report("C08", "C08_NoNeedlessWait", <<"waiting although every child on the latest revision is observed, up to date and happy">>)
+\* C08: completion and clean-up within the linear bound (the scenario runs that many syncs)
+C08_Done ==
+  (IsEv("End") /\ RollScn /\ "done" \in DOMAIN expect /\ expect.done)
+  => LET p == Lookup(store, <<"Parent", "ns1", "p">>)
+         latest == expect.finalRev IN
+     \/ (/\ p.live
+         /\ \A i \in DOMAIN expect.finalNames :
+               LET k == Lookup(store, <<"Thing", "ns1", expect.finalNames[i]>>) IN
+               k.live /\ k.ctrl = p.uid /\ RevField \in DOMAIN k.fields /\ k.fields[RevField] = latest
+               /\ "spec.nonrev" \in DOMAIN k.fields /\ k.fields["spec.nonrev"] = expect.finalNonrev
+         /\ Cardinality(UpdIdx(p.status)) = 1 /\ UpdField(p.status, "status") = "s:True"
+         /\ { RevValOf(store[k]) : k \in RevKeys(store, p.uid) } = {latest})
+     \/ Report("C08", "C08_Done", <<"rollout not complete after the bound", "revisions", { RevValOf(store[k]) : k \in RevKeys(store, p.uid) },
+                                     "children", [i \in DOMAIN expect.finalNames |-> Lookup(store, <<"Thing", "ns1", expect.finalNames[i]>>).fields],
+                                     "conditions", p.status>>)
+\* C09: rollout intent is persisted before acting
+C09_RevisionsFirst ==
+  (IsEv("SyncEnd") /\ E.a \in DOMAIN ctx /\ ctx[E.a].active)
+  => /\ (ctx[E.a].revWritesAfterChild = 0 \/ Report("C09", "C09_RevisionsFirst", <<"ControllerRevision written after a child write", ctx[E.a].revWritesAfterChild>>))
+     /\ (ctx[E.a].childAfterRevFail = 0 \/ Report("C09", "C09_FailStops", <<"child written after a failed ControllerRevision write", ctx[E.a].childAfterRevFail>>))
+C09_OneClaim ==
+  RollEnd => LET c == ctx[E.a] IN
+             \A n \in DesNames(c) : (Cardinality(ClaimVals(store, c.parent.uid, "Thing", n)) <= 1
+                                      \/ Report("C09", "C09_OneClaim", <<n, ClaimVals(store, c.parent.uid, "Thing", n)>>))
+\* no child is ever ahead of the revision recorded for it (checked in EVERY state, i.e. at every crash point)
+MaxOrd(vs) == CHOOSE m \in { expect.revOrder[v] : v \in vs } : \A v \in vs : expect.revOrder[v] <= m
+C09_NotAhead ==
+  (RollScn /\ HasE /\ E.ev \in {"Req", "SyncEnd", "Crash", "End", "SyncStart"})
+  => \A k \in DOMAIN store :
+       (store[k].live /\ store[k].kind = "Thing" /\ store[k].ctrl = expect.parentUid /\ RevField \in DOMAIN store[k].fields
+          /\ store[k].fields[RevField] \in DOMAIN expect.revOrder)
+       => LET vs == ClaimVals(store, expect.parentUid, "Thing", store[k].name) \cap DOMAIN expect.revOrder IN
+          \/ vs = {}
+          \/ expect.revOrder[store[k].fields[RevField]] <= MaxOrd(vs)
+          \/ Report("C09", "C09_NotAhead", <<k, "content at", store[k].fields[RevField], "claimed by", vs>>)
+
+\* =======================================================================================
 \* state update
 \* =======================================================================================
 StoreOfK(objs) == [k \in { ObjKey(objs[i]) : i \in DOMAIN objs } |->
@@ -604,6 +721,7 @@ CtxAfterReq(c, e) ==
 CtxAfterHook(c, e) ==
   IF e.hook = "customize" THEN [c EXCEPT !.hookFail = @ \/ e.code # 200]
   ELSE [c EXCEPT !.nHooks = @ + 1,
+                 !.hookSeq = Append(@, [parent |-> e.req.parent, resp |-> e.resp, code |-> e.code]),
                  !.resp = IF e.code = 200 THEN e.resp ELSE @,
                  !.hookReq = e.req,
                  !.hookParent = e.req.parent,
@@ -625,6 +743,7 @@ NewCtx(e) ==
                 !.marker = IF "marker" \in DOMAIN e THEN e.marker ELSE "",
                 !.fin = IF "fin" \in DOMAIN e THEN e.fin ELSE "",
                 !.obs = StoreOfK(e.cache),
+                !.store0 = store,
                 !.fresh = CacheFresh(e),
                 !.atFix = IF HasExpect("fix") THEN AtFix(store) ELSE FALSE,
                 !.prevQuiet = IF e.a \in DOMAIN ctx THEN (ctx[e.a].result = "ok" /\ ~ctx[e.a].wrote /\ ctx[e.a].childReqs = 0) ELSE FALSE]
